@@ -246,7 +246,7 @@ fn check_rt(ctx: &Ctx, env: &Env, case: &RtCase) -> CaseResult {
 
 // ------------------------------------------------------------------------------------ robustness
 
-fn check_rob(env: &Env, case: &RobCase) -> CaseResult {
+pub fn check_rob(env: &Env, case: &RobCase) -> CaseResult {
     let mut rep = CaseReport::new();
     let Some(entry) = shape_by_name(&case.shape) else {
         rep.class("out-of-domain");
@@ -424,15 +424,33 @@ fn cause_cases() -> Vec<CauseCase> {
 
 // ------------------------------------------------------------------------------------ run
 
-pub fn run(ctx: &Ctx) {
-    let mut helps = BTreeMap::new();
-    for l in all_levels() {
-        // a help printer that fails to render is reported by `help-text`; here it just has no text
-        if let Ok(Ok(t)) = vh::runner::catch(|| (l.help)()) {
-            helps.insert(l.name, t);
+impl Env {
+    /// Help texts rendered once + the arena that keeps generated arguments alive ('static).
+    pub fn new() -> Env {
+        let mut helps = BTreeMap::new();
+        for l in all_levels() {
+            // a help printer that fails to render is reported by `help-text`; here it just has no text
+            if let Ok(Ok(t)) = vh::runner::catch(|| (l.help)()) {
+                helps.insert(l.name, t);
+            }
         }
+        Env { store: RefCell::new(ArgStore::new()), helps }
     }
-    let env = Env { store: RefCell::new(ArgStore::new()), helps };
+}
+
+impl Default for Env {
+    fn default() -> Self {
+        Self::new()
+    }
+}
+
+/// Names of the derived shapes (for the fuzz target).
+pub fn shape_names() -> Vec<&'static str> {
+    SHAPES.iter().map(|s| s.spec.name).collect()
+}
+
+pub fn run(ctx: &Ctx) {
+    let env = Env::new();
 
     if !ctx.is_replay() {
         // enumerations are small: every worker runs its share
